@@ -172,3 +172,45 @@ def evaluate(case: Case, tier: str) -> Outcome:
 def sample(case: Case, out: Outcome) -> dict:
     """for the evidence"""
     return {"program": case.src, "IN": case.IN, "OUT": case.OUT, "traits": case.traits, "origin": case.origin, "labels": sorted(set(out.labels)), "result": (out.opt.text if out.opt else "")[:1500]}
+
+
+ATHERIS_SECONDS = 300
+
+
+def shard_extra(tier: str, seed: int, shard: int, nshards: int) -> dict:
+    """thorough tier only: a coverage-guided campaign (atheris/libFuzzer over the same strategy) per shard"""
+    import glob  # pylint: disable=import-outside-toplevel
+    import json  # pylint: disable=import-outside-toplevel
+    import os  # pylint: disable=import-outside-toplevel
+    import shutil  # pylint: disable=import-outside-toplevel
+
+    if tier != "thorough":
+        return {}
+    outdir = os.path.join(env.VERIF, ".work", f"atheris_{os.getpid()}_{shard}")
+    res: dict = {"atheris_campaigns": 0, "atheris_executions": 0, "atheris_known_hits": 0, "atheris_unavailable": 0}
+    try:
+        proc = subprocess.run(
+            [sys.executable, "-m", "ngoverif.fuzz_c03", outdir, str(ATHERIS_SECONDS), str(seed * 100 + shard + 1)],
+            env=env.child_env("0"), cwd=env.VERIF, capture_output=True, timeout=ATHERIS_SECONDS + 240, check=False,
+        )
+        if proc.returncode == 3:
+            res["atheris_unavailable"] = 1
+        else:
+            res["atheris_campaigns"] = 1
+    except subprocess.TimeoutExpired:
+        res["atheris_campaigns"] = 1
+    failures = []
+    try:
+        with open(os.path.join(outdir, "stats.json"), encoding="utf8") as fh:
+            st_ = json.load(fh)
+        res["atheris_executions"] = st_.get("executions", 0)
+        res["atheris_known_hits"] = st_.get("known", 0)
+    except (OSError, ValueError):
+        pass
+    for path in sorted(glob.glob(os.path.join(outdir, "crash_*.json"))):
+        with open(path, encoding="utf8") as fh:
+            failures.append(json.load(fh))
+    shutil.rmtree(outdir, ignore_errors=True)
+    res["failures"] = failures
+    res["evaluations"] = res["atheris_executions"]
+    return res
